@@ -188,6 +188,15 @@ def monitors(cfg, ops, out, rc, consts, which):
                     bad.append(("login-first", "head", "device %d: cs=%d li=%d but head-is-login=%s" % (i, d["cs"], d["li"], head_login)))
                 if any(a["com"] == login for a in d["acts"][1:]):
                     bad.append(("login-first", "login-not-head", "device %d: a login action behind the head: %s" % (i, d["line"][-200:])))
+                # C12_restart_from_first / C08_fresh_start: while the login of a (re)established connection is in progress nothing else
+                # executes, and the action it pre-empted was rewound: everything behind the login is at its first statement, flags clear
+                if head_login:
+                    for a in d["acts"][1:]:
+                        ctxs = a["exec"].split(";")
+                        f = ctxs[0].split("/")
+                        if len(ctxs) != 1 or f[0] != "0" or f[1] != "0" or f[2] != "n":
+                            bad.append(("restart", "not-rewound", "device %d: login in progress on a new connection, but the action of client %d behind it is not at its first statement (exec %s): "
+                                        "it would resume mid-script on a session that never saw its earlier statements" % (i, a["client"], a["exec"][:80])))
             if "timer" in which and not p.init and d["acts"]:      # C04 device side / C12 no busy loop
                 h = d["acts"][0]
                 if h["stamp"] is not None:
